@@ -125,6 +125,24 @@ func (w *World) c14PacketLevel() []Pkt {
 			}
 		}
 	}
+	// several independent faults of the same kind in one payload (the error text must not depend on which is met first)
+	fa := feeActionJSON([]FeeSpec{{To: w.Fee1.String(), Bps: 100}})
+	sa := fmt.Sprintf(`{"id":"ACTION_SWAP","attributes":{"@type":"%s","fees_info":[]}}`, urlFee)
+	idAct := func(id string) string { return fmt.Sprintf(`{"id":%s,"attributes":{"@type":"%s","fees_info":[]}}`, id, urlFee) }
+	intl := w.FwdInternal(w.Bob)
+	for _, m := range []string{
+		MemoJSON(intl, fa, sa, sa, fa), MemoJSON(intl, sa, fa, fa, sa), MemoJSON(intl, fa, fa, sa, sa), MemoJSON(intl, idAct("7"), idAct("7"), idAct("9"), idAct("9")),
+		MemoJSON(intl, idAct("3"), idAct("4"), idAct("3"), idAct("4")), MemoJSON(intl, idAct("0"), idAct("-1")),
+		MemoJSON(intl, feeActionJSON([]FeeSpec{{To: "bad1", Bps: 100}, {To: "bad2", Bps: 100}})), MemoJSON(intl, feeActionJSON([]FeeSpec{{To: w.Fee1.String(), Bps: 0}, {To: w.Fee2.String(), Bps: 10001}})),
+		MemoJSON(intl, feeActionJSON([]FeeSpec{{To: w.Fee1.String(), Fixed: "x"}, {To: w.Fee2.String(), Fixed: "y"}})),
+		`{"orbiter":{"a":1,"b":2,"forwarding":` + fmt.Sprintf(`{"protocol_id":"PROTOCOL_INTERNAL","attributes":%s}`, intl.attrsJSON()) + `}}`,
+		`{"orbiter":{"forwarding":{"c":1,"d":2,"protocol_id":"PROTOCOL_INTERNAL","attributes":` + intl.attrsJSON() + `}}}`,
+		`{"x":1,"y":2,"orbiter":{}}`, `{"x":1,"y":2}`,
+	} {
+		p := base
+		p.Memo = m
+		out = append(out, p)
+	}
 	// raw data
 	alpha := []byte(`{}[]":,a1 -` + "\x00")
 	raws := []string{"", strings.Repeat("{", 70000), `{"denom":{},"amount":[],"sender":1,"receiver":null,"memo":true}`}
